@@ -905,7 +905,7 @@ func (or *oracle) attribute() {
 	var lines []string
 	for _, pv := range or.pending {
 		before := pv.cs.Real.Before
-		if hugeLiteral.MatchString(pv.cs.Src) {
+		if hugeLiteral.MatchString(pv.cs.Src) && strings.Contains(pv.cs.Src, "..") {
 			// the reference evaluator builds a range before it checks the budget: do not ask it for 1e18 elements
 			before = "(skipped)"
 			r.Count("attribution:skipped-huge-literal", 1)
@@ -1070,7 +1070,7 @@ func runC02(c *Ctx) {
 		r.Count("flag:walkSliceNode", 1)
 	}
 	n := 5000
-	nOracle := 900
+	nOracle := 600
 	maxPending := 150
 	if c.Thorough() {
 		n, nOracle, maxPending = 120000, 40000, 2000
